@@ -224,18 +224,26 @@ def rErr : Err → String
   | .bestUnitQuantity k q uq => s!"err bestUnitQuantity {renderText k} {rPQ q} {rPQ uq}"
   | .panic site => s!"panic {site}"
 
-def rConverter (c : Converter Float) : String :=
+/-- `skip`: letters of the parts (`I` index, `Q` quantity index, `B` best lists, `F` fraction tables) the harness could not
+    read from the real converter (they are private; it reads them through the `Debug` rendering, whose shape may change
+    with the private representation): those parts are printed as `?` on both sides -/
+def rConverterSkip (skip : String) (c : Converter Float) : String :=
+  let part (l : Char) (v : String) : String := if skip.toList.contains l then "?" else v
   " ".intercalate ["ok",
     "U=" ++ ";".intercalate (c.units.map rUnit),
-    "I=" ++ rIndex c.index,
-    "Q=" ++ ";".intercalate (PQ.all.map (fun q => rNats (c.quantityIndex q))),
-    "B=" ++ ";".intercalate (c.best.map (fun e => rStore e.2)),
-    "F=" ++ rFractions c.fractions,
+    "I=" ++ part 'I' (rIndex c.index),
+    "Q=" ++ part 'Q' (";".intercalate (PQ.all.map (fun q => rNats (c.quantityIndex q)))),
+    "B=" ++ part 'B' (";".intercalate (c.best.map (fun e => rStore e.2))),
+    "F=" ++ part 'F' (rFractions c.fractions),
     "D=" ++ rSys c.defaultSystem]
 
-def rResult : Except Err (Converter Float) → String
-  | .ok c => rConverter c
+def rConverter (c : Converter Float) : String := rConverterSkip "" c
+
+def rResultSkip (skip : String) : Except Err (Converter Float) → String
+  | .ok c => rConverterSkip skip c
   | .error e => rErr e
+
+def rResult : Except Err (Converter Float) → String := rResultSkip ""
 
 def handleBuilder : List String → Option String
   | "build" :: rest =>
@@ -243,6 +251,13 @@ def handleBuilder : List String → Option String
     | some (.list fs, []) =>
       match fs.mapM dFile with
       | some files => some (rResult (build files))
+      | none => some "bad-file"
+    | _ => some "bad-sexp"
+  | "build_skip" :: skip :: rest =>
+    match parseSx (tokenize (" ".intercalate rest)) with
+    | some (.list fs, []) =>
+      match fs.mapM dFile with
+      | some files => some (rResultSkip skip (build files))
       | none => some "bad-file"
     | _ => some "bad-sexp"
   | ["build_shipped"] => some (rResult (bundled (α := Float)))
